@@ -1251,6 +1251,23 @@ Proof.
 Qed.
 
 
+(* the same for every router that keeps a key with the worker that has it pending: key-persistent and,
+   since fix 36a533a, sticky queuer -- in particular through the exit window of a worker (stopped,
+   post_stop running, not yet replaced), where the pre-fix sticky rule put one key on two workers *)
+Theorem owner_affinity : forall c n d rls ls a1 a2 x1 x2 j1 j2,
+  owner_router c ->
+  run_ok c (init c n d rls) ls ->
+  let w := run c (init c n d rls) ls in
+  lookup a1 (actors w) = Some x1 -> lookup a2 (actors w) = Some x2 ->
+  In j1 (actor_jobs x1) -> In j2 (actor_jobs x2) -> j_key j1 = j_key j2 ->
+  a_wid x1 = a_wid x2.
+Proof.
+  intros c n d rls ls a1 a2 x1 x2 j1 j2 R OK w L1 L2 I1 I2 K.
+  destruct (held_job_is_pending c n d rls ls a1 x1 j1 OK L1 I1) as (p1 & Lp1 & _ & P1).
+  destruct (held_job_is_pending c n d rls ls a2 x2 j2 OK L2 I2) as (p2 & Lp2 & _ & P2).
+  rewrite K in P1. eapply (one_owner c n d rls ls (j_key j2)); eassumption.
+Qed.
+
 (* ------------------------------------------------------------------ a decidable form of the hypothesis *)
 Definition stale_headb (w : world) : bool :=
   running_now w && negb (held w) && negb (stop_req w)
